@@ -230,14 +230,75 @@ pub proof fn lemma_nsec_items_push(ms: Seq<TypeBitMap>, m: TypeBitMap)
             }
 """, where='after')
 
-    for t, f, ext in [('SVCB', 'svcb', ('write_to', 'len')),
+    # ---- SVCB / HTTPS (RFC 9460 2.2): priority, target name (never compressed), SvcParams with strictly increasing keys
+    rel = 'dns/rdata/svcb.rs'
+    c.append(rel, """verus!{
+/// the parameter map holds exactly the items of the wire list
+pub open spec fn params_match(m: Map<u16, Cow<[u8]>>, items: Seq<(u16, Seq<u8>)>) -> bool {
+    &&& forall|k: u16| #[trigger] m.contains_key(k) <==> exists|i: int| 0 <= i < items.len() && (#[trigger] items[i]).0 == k
+    &&& forall|i: int| 0 <= i < items.len() ==> m.contains_key((#[trigger] items[i]).0) && m[items[i].0]@ == items[i].1
+}
+impl<'a> SVCB<'a> {
+    pub closed spec fn pv(&self) -> Map<u16, Cow<'a, [u8]>> { self.params@ }
+    pub closed spec fn prio(&self) -> u16 { self.priority }
+    pub closed spec fn tgt(&self) -> Seq<Seq<u8>> { self.target.lv() }
+}
+}
+""")
+    SVCB_WF = impl_header(c, rel, 'SVCB')
+    wrap_type(c, rel, 'SVCB', """    open spec fn wf_ok(&self) -> bool { name_ok(self.tgt()) }
+    closed spec fn wf_enc(&self) -> Seq<u8> { arbitrary() }
+    open spec fn wf_dec(data: Seq<u8>, p: int, v: &Self, p2: int) -> bool {
+        &&& p + 2 <= data.len()
+        &&& v.prio() as nat == be_nat(data.subrange(p, p + 2))
+        &&& dec_labels(data, p + 2, 0) == Some(v.tgt())
+        &&& p2 == data.len()
+        &&& exists|items: Seq<(u16, Seq<u8>)>| #[trigger] tlv16(data, p + 2 + inplace_len(data, p + 2), items, data.len() as int)
+                && strictly_increasing_u16(items) && params_match(v.pv(), items)   // keys not increasing / value overrunning => rejected
+    }
+""", external_trait_fns=('write_compressed_to', 'write_to', 'len'))
+    c.contract(rel, SVCB_WF, 'parse', "", pre_body="\n        let ghost p0 = *position as int;\n")
+    c.ghost(rel, SVCB_WF, 'parse', "let mut params = BTreeMap::new();", "        let ghost q0 = *position as int;\n        let ghost mut items: Seq<(u16, Seq<u8>)> = Seq::empty();", where='after')
+    c.loop_spec(rel, SVCB_WF, 'parse', 0, """
+            invariant *position <= data.len(), data.len() <= isize::MAX, q0 <= *position,
+                tlv16(data@, q0, items, *position as int), // @C10:svcb-params-decoded
+                strictly_increasing_u16(items), // @C10:svcb-keys-increasing
+                params_match(params@, items), // @C10:svcb-params-decoded
+                -1 <= previous_key <= 65535,
+                forall|i: int| 0 <= i < items.len() ==> (#[trigger] items[i]).0 <= previous_key,
+            decreases data.len() - *position,
+""", body_pre="\n            let ghost old_items = items;\n            let ghost old_map = params@;\n")
+    c.ghost(rel, SVCB_WF, 'parse', "*position += 4 + value_length;", """
+            proof {
+                let val = data@.subrange(*position + 4, *position + 4 + value_length);
+                items = old_items.push((key, val));
+                assert(items.drop_last() =~= old_items);
+                assert(params@ == old_map.insert(key, params@[key]));
+                assert(params@[key]@ == val);
+                assert forall|k: u16| #[trigger] params@.contains_key(k) <==> exists|i: int| 0 <= i < items.len() && (#[trigger] items[i]).0 == k by {
+                    if params@.contains_key(k) {
+                        if k == key { assert(items[items.len() - 1].0 == k); }
+                        else {
+                            assert(old_map.contains_key(k));
+                            let i = choose|i: int| 0 <= i < old_items.len() && (#[trigger] old_items[i]).0 == k;
+                            assert(items[i].0 == k);
+                        }
+                    }
+                    if exists|i: int| 0 <= i < items.len() && (#[trigger] items[i]).0 == k {
+                        let i = choose|i: int| 0 <= i < items.len() && (#[trigger] items[i]).0 == k;
+                        if i < old_items.len() { assert(old_items[i].0 == k); }
+                    }
+                }
+                assert forall|i: int| 0 <= i < items.len() implies params@.contains_key((#[trigger] items[i]).0) && params@[items[i].0]@ == items[i].1 by {
+                    if i < old_items.len() { assert(old_items[i] == items[i]); assert(old_items[i].0 != key); }
+                }
+            }
+""", where='before')
+
+    for t, f, ext in [
                       ('IPSECKEY', 'ipseckey', ('write_to', 'len')), ('NSAP', 'nsap', ('write_to', 'len'))]:
         rel = 'dns/rdata/%s.rs' % f
         wrap_type(c, rel, t, WEAK, external_trait_fns=('write_compressed_to',) + ext)
-    for f in ('svcb',):
-        rel = 'dns/rdata/%s.rs' % f
-        t = {'svcb': 'SVCB'}[f]
-        c.loop_spec(rel, impl_header(c, rel, t), 'parse', 0, LOOP_INV)
     c.wrap('dns/rdata/opt.rs', "pub mod masks {")
     c.wrap('dns/rdata/opt.rs', "pub struct OPTCode<'a> {")
     c.wrap('dns/rdata/nsec.rs', "pub struct TypeBitMap<'a> {")
